@@ -89,6 +89,17 @@ template <int DIM, int ORDER> struct Cfg {
     // derivative trajectories (built once)
     std::vector<PP> der; for (int j = 0; j <= nc + 1; ++j) der.push_back(pp.derivative(j));
     for (int j = 0; j <= nc + 1; ++j) { ++c.st.comparisons; if (!der[j].isInitialized() || der[j].getNumSegments() != n || der[j].getBreakpoints() != b || der[j].getNumCoeffs() != (j < nc ? nc - j : 1)) { fail("derivative-traj", fmt("derivative(%d) has wrong shape", j)); return false; } }
+    // derivative() is a pure function of (object, order): chained calls and calls repeated in another order give the same trajectories. The
+    // call sequence below makes consecutive calls return the SAME coefficient count from DIFFERENT orders (seeded change C03-m10: a
+    // function-local factor row refreshed only when its length changes)
+    for (int j1 = 1; j1 <= 2; ++j1) for (int j2 = 1; j2 <= 2; ++j2) { if (j1 + j2 >= nc) continue;
+      PP chain = pp.derivative(j1).derivative(j2);      // leaves (length nc-j1-j2, order j2) behind
+      PP direct = pp.derivative(j1 + j2);               // same length, order j1+j2
+      PP again1 = pp.derivative(j1);                    // and back
+      ++c.st.comparisons;
+      if (!mat_bits_equal(direct.getCoefficients(), der[j1 + j2].getCoefficients()) || !mat_bits_equal(again1.getCoefficients(), der[j1].getCoefficients())) { fail("derivative-traj", fmt("derivative(%d) called after derivative(%d).derivative(%d) differs from the same call made earlier", j1 + j2, j1, j2)); return false; }
+      if (chain.getNumCoeffs() != nc - j1 - j2 || chain.getBreakpoints() != b) { fail("derivative-traj", fmt("derivative(%d).derivative(%d) has the wrong shape", j1, j2)); return false; }
+      for (int i = 0; i < n; i += std::max(1, n / 4)) { const double t = b[i] + 0.25 * (b[i + 1] - b[i]); Vec a = chain.evaluate(t, 0), w = pp.evaluate(t, j1 + j2); for (int d = 0; d < DIM; ++d) if (std::fabs(a(d) - w(d)) > 1e-12 * (std::fabs(w(d)) + 1e-300) + 1e-300) { fail("derivative-traj", fmt("derivative(%d).derivative(%d).evaluate(%.17g) = %.17g, evaluate(t,%d) = %.17g", j1, j2, t, a(d), j1 + j2, w(d))); return false; } } }
     for (int k = 0; k <= nc + 1; ++k) {
       SplineTrajectory::SplineVector<Vec> batch = pp.evaluate(ts, k);
       if (batch.size() != ts.size()) { fail("batch", "wrong result count"); return false; }
